@@ -89,7 +89,8 @@ def run(eng, R):
 
     # ---- HistFit
     hm = get_func(p, "HistFit", "model")
-    rs = return_exprs(hm.node)
+    cn = eng.cnode(hm)  # canonical: aliases resolved, negated test / early return folded into one if/else form
+    rs = return_exprs(cn)
     got = {}
     for conds, e, env in rs:
         key = " and ".join(("" if pol else "not ") + ast.unparse(t) for t, pol in conds)
@@ -98,7 +99,7 @@ def run(eng, R):
     for flag in ("self._param_model.density", "self._density"):  # the reader keeps the fit's flag equal to the model's (C09 E14)
         ok = ok or (got.get(flag) == "self._data_container.n_entries*self._param_model.data" and got.get("not " + flag) == "self._param_model.data")
     if not ok and len(got) == 1:
-        # the scale may live in a helper: `self._param_model.data * self.<helper>()` with helper = n_entries for a density, 1 otherwise
+        # the scale may live in a (shared) helper: `self._param_model.data * self.<helper>()` with helper = n_entries for a density, 1 otherwise
         (form,) = got.values()
         for m_ in p.find_class("HistFit").all_methods().values():
             if not hasattr(m_, "node") or ("(self).%s()" % m_.name) not in form:
@@ -106,15 +107,29 @@ def run(eng, R):
             if form not in ("(self).%s()*self._param_model.data" % m_.name,):
                 continue
             hr = {}
-            for conds, e, env in return_exprs(m_.node):
+            for conds, e, env in return_exprs(eng.cnode(m_)):
                 key = " and ".join(("" if pol else "not ") + ast.unparse(t) for t, pol in conds)
                 hr[key] = Normalizer(env).norm(e).canon()
             for flag in ("self._param_model.density", "self._density"):
                 if hr.get(flag) == "self._data_container.n_entries" and hr.get("not " + flag) == "1":
                     ok = True
     R.ob("S-fit", "HistFit.model", ok, (hm.file, hm.lineno), "HistFit.model must be density integral x number of entries for a density, the bare bin contents otherwise (found %s)" % got)
-    src = common.src_of(hm.node)
-    R.ob("S-fit", "HistFit.model:push", "self._param_model.parameters = self.parameter_values" in src, (hm.file, hm.lineno), "HistFit.model must push the current parameter values into the model before reading it")
+    # the push comes before the first read of the model's data on every path
+    g = eng.ccfg(hm)
+
+    def pushes(n):
+        st = n.stmt
+        return n.kind == "stmt" and isinstance(st, ast.Assign) and any(common.src_of(t) == "self._param_model.parameters" for t in st.targets) and common.src_of(st.value) == "self.parameter_values"
+
+    def reads_data(n):
+        return any(isinstance(x, ast.Attribute) and x.attr == "data" and common.src_of(x.value) == "self._param_model" for part in n.ast_parts() for x in ast.walk(part))
+
+    first_reads = [n for n in g.nodes if n.kind in ("stmt", "test") and reads_data(n)]
+    ok = bool(first_reads)
+    for rd in first_reads:
+        path = g.find_path(g.entry.id, lambda m, rd=rd: m.id == rd.id, exceptional=False, avoid=pushes)
+        ok = ok and path is None
+    R.ob("S-fit", "HistFit.model:push", ok, (hm.file, hm.lineno), "HistFit.model must push the current parameter values into the model before reading it")
     sp = get_func(p, "HistFit", "_set_new_parametric_model")
     g = eng.cfg(sp)
 
@@ -125,12 +140,16 @@ def run(eng, R):
     ok, wit = g.all_paths_pass(g.entry.id, assigns_model)
     R.ob("S-fit", "HistFit._set_new_parametric_model:always", ok, (sp.file, sp.lineno),
          "_set_new_parametric_model can return without building a model for the new data container: the old model keeps integrating over the old bin edges")
-    calls = [n.value for n in ast.walk(sp.node) if isinstance(n, ast.Assign) and any(self_attr(t) == "_param_model" for t in n.targets) and isinstance(n.value, ast.Call)]
+    csp = eng.cnode(sp)
+    calls = [n.value for n in ast.walk(csp) if isinstance(n, ast.Assign) and any(self_attr(t) == "_param_model" for t in n.targets) and isinstance(n.value, ast.Call)]
     ok = bool(calls)
+    ctor = p.find_class("HistParametricModel").find_method("__init__")
+    want = {"n_bins": "self._data_container.size", "bin_range": "self._data_container.bin_range", "model_density_func": "self._model_function", "model_parameters": "self.parameter_values",
+            "bin_edges": "self._data_container.bin_edges", "bin_evaluation": "self._bin_evaluation", "density": "self._density"}
+    from . import norm
     for c in calls:
-        args = [" ".join(ast.unparse(a).split()) for a in c.args] + ["%s=%s" % (k.arg, " ".join(ast.unparse(k.value).split())) for k in c.keywords]
-        ok = ok and args[:5] == ["self._data_container.size", "self._data_container.bin_range", "self._model_function", "self.parameter_values", "self._data_container.bin_edges"] \
-            and "bin_evaluation=self._bin_evaluation" in args and "density=self._density" in args
+        bound = {k: norm.txt(v) for k, v in norm.bind_call(c, ctor.node).items()}
+        ok = ok and all(bound.get(k) == v for k, v in want.items())
     R.ob("S-fit", "HistFit._set_new_parametric_model:args", ok, (sp.file, sp.lineno),
          "the parametric model must be built from the current container's size, range and edges, the fit's model function, parameters, bin evaluation and density flag")
 
